@@ -495,6 +495,9 @@ func (x *Exec) callWith(e *ast.CallExpr, st *State, recvVal Value, args []Value)
 						if c := x.eng.cs.Funcs[key]; c != nil {
 							synth := types.NewFunc(token.NoPos, fv.Pkg(), fv.Name(), sig)
 							x.assumes["function stored in field "+trimPkg(typeKey(rt))+"."+fv.Name()+" satisfies its field contract"] = true
+							if ht := x.info.TypeOf(sel.X); ht != nil {
+								x.fieldHolder = &cbind{x.expr(sel.X, st), ht}
+							}
 							return x.applyContract(e, st, synth, c, nil, args, resT)
 						}
 					}
@@ -699,6 +702,11 @@ func (x *Exec) applyContract(e *ast.CallExpr, st *State, fn *types.Func, c *Cont
 	sig := fn.Type().(*types.Signature)
 	recvN, paramN, resN := x.calleeNames(c, fn)
 	env := map[string]cbind{}
+	if x.fieldHolder != nil {
+		// call through a function-typed field: `holder` is the struct holding it
+		env["holder"] = *x.fieldHolder
+		x.fieldHolder = nil
+	}
 	valueRecv := false
 	if sig.Recv() != nil {
 		rv := recvVal
